@@ -18,10 +18,10 @@ import inspect
 import os
 import sys
 from fractions import Fraction
-from .sorts import (Int, Real, Float, Bool, Str, CSet, Ballot, Profile, Seq, Opt, Dict, Tup, Obj, NoneS, Fn, StateRef, TBDictS, BDict, SDict, LDict)  # noqa: F401
+from .sorts import (Int, Real, Float, Bool, Str, CSet, Ballot, Profile, Seq, Opt, Dict, Tup, Obj, NoneS, Fn, StateRef, TBDictS, BDict, SDict, RDict, LDict)  # noqa: F401
 
 __all__ = ["contract", "spec", "REGISTRY", "Int", "Real", "Float", "Bool", "Str", "CSet", "Ballot", "Profile", "Seq",
-           "Opt", "Dict", "Tup", "Obj", "NoneS", "Fn", "StateRef", "TBDictS", "BDict", "SDict", "LDict", "bd_keys", "bd_vals", "implies", "Fraction", "lemma", "floor", "div", "dsum", "reversed_seq", "tb_value", "the"]
+           "Opt", "Dict", "Tup", "Obj", "NoneS", "Fn", "StateRef", "TBDictS", "BDict", "SDict", "RDict", "LDict", "bd_keys", "bd_vals", "implies", "Fraction", "lemma", "floor", "div", "dsum", "reversed_seq", "tb_value", "the"]
 
 
 def implies(a, b):
